@@ -30,7 +30,7 @@ def spec_without(spec, name):
 def check_case(case):
     res = Res()
     inputs = [tuple(x) for x in case["inputs"]]
-    spec = mux_spec(inputs, case["pal"], case["rs_list"], case["rails"], case["by_rail"], pol=case.get("pol", 1), mux_pc=case.get("mux_pc"), order=case.get("order"))
+    spec = mux_spec(inputs, case["pal"], case["rs_list"], case["rails"], case["by_rail"], pol=case.get("pol", 1), mux_pc=case.get("mux_pc"), order=case.get("order"), ig_table=case.get("ig_table", False))
     if case.get("reload"):
         # the declared priority order (different from the creation order) must survive save() / from_file()
         from ..sysmodel import build, observe
@@ -61,8 +61,24 @@ def check_case(case):
         s = build(spec)
         quiet_call(s.solve)
         victim = case["delete"]
-        s.del_comp(victim, del_childs=False)
-        spec = spec_without(spec, victim)
+        if case.get("rename"):
+            # the endpoint of one input is replaced by an identical component with a NEW name: it must keep its slot in the priority list
+            import copy
+            from ..sysmodel import make_comp
+            newn = "Z_" + victim
+            vc = [c for c in spec["comps"] if c["n"] == victim][0]
+            nc = dict(copy.deepcopy(vc), n=newn)
+            s.change_comp(victim, comp=make_comp(nc), group=vc.get("g", ""), rail=vc.get("r", ""))
+            if vc.get("pc") is not None:
+                s.set_comp_phases(newn, copy.deepcopy(vc["pc"]))
+            spec = copy.deepcopy(spec)
+            for c in spec["comps"]:
+                if c["n"] == victim:
+                    c["n"] = newn
+                c["p"] = [newn if q == victim else q for q in c["p"]]
+        else:
+            s.del_comp(victim, del_childs=False)
+            spec = spec_without(spec, victim)
         try:
             df, _ = quiet_call(s.solve)
         except (RuntimeError, ValueError) as e:
@@ -113,6 +129,8 @@ def gen_cases(tier):
             for rs_list, rails, by_rail in forms:
                 yield dict(inputs=[list(x) for x in inputs], pal=pal, rs_list=rs_list, rails=rails, by_rail=by_rail,
                            pol=-1 if (k == 2 and rs_list) else 1)
+            if k <= 3:  # the mux with a 2-D ground-current table (looked up at the selected input's voltage)
+                yield dict(inputs=[list(x) for x in inputs], pal=pal, rs_list=False, rails=False, by_rail=False, pol=1, ig_table=True)
             if k <= 3:  # the mux itself sleeping in one phase (draws iis from the SELECTED input) / active in the other
                 for mpc in (["a"], ["b"]):
                     yield dict(inputs=[list(x) for x in inputs], pal=pal, rs_list=True, rails=False, by_rail=False, pol=1, mux_pc=mpc)
@@ -126,6 +144,9 @@ def gen_edits(tier, pal):
                 if t in ("SC", "SH", "SL"):
                     victim = {"SC": "C%d", "SH": "P%d", "SL": "G%d"}[t] % j
                     yield dict(inputs=[list(x) for x in inputs], pal=pal, rs_list=True, rails=False, by_rail=False, pol=1, delete=victim)
+            for j, (t, st) in enumerate(inputs, 1):   # rename the endpoint of input j
+                endp = {"S": "S%d", "SC": "C%d", "SH": "P%d", "SL": "G%d"}[t] % j
+                yield dict(inputs=[list(x) for x in inputs], pal=pal, rs_list=True, rails=False, by_rail=False, pol=1, delete=endp, rename=True)
             for order in itertools.permutations(range(k)):
                 if list(order) != list(range(k)):
                     yield dict(inputs=[list(x) for x in inputs], pal=pal, rs_list=True, rails=False, by_rail=False, pol=1, order=list(order), reload=True)
